@@ -45,4 +45,18 @@ def windowSpec (L : List Entry) (o : StreamOpts) : List Entry :=
   | none, none, none, some h => (L.take (idx h + 1)).drop ((idx h + 1) - n)
   | none, none, none, none => L.drop (L.length - n)
 
+/-- the window a range query must return when the log `L` (oldest first) also holds entries that are
+not operations (`isOp e = false`): the bound is a POSITION in the log - it may be one of those
+entries -, what is listed and counted are the operations on the asked side of it. -/
+def windowSpecOps (isOp : Entry → Bool) (L : List Entry) (o : StreamOpts) : List Entry :=
+  let n := normAmount o.amount L.length
+  let idx (h : Nat) : Nat := (L.findIdx? (fun e => e.hash == h)).getD 0
+  let last (l : List Entry) : List Entry := l.drop (l.length - n)
+  match o.gt, o.gte, o.lt, o.lte with
+  | some h, _, _, _ => ((L.drop (idx h + 1)).filter isOp).take n
+  | none, some h, _, _ => ((L.drop (idx h)).filter isOp).take n
+  | none, none, some h, _ => last ((L.take (idx h)).filter isOp)
+  | none, none, none, some h => last ((L.take (idx h + 1)).filter isOp)
+  | none, none, none, none => last (L.filter isOp)
+
 end Orbit
